@@ -41,6 +41,10 @@ STRENGTHENED = {
     "C07g": "1 disagreement: opx got rows that are wrapped AND end in a wide character (cursor classes on its first half)",
     "C12g": "1 disagreement at first: the resize family got 'region anchored at the top, shrink to its height, scroll, look at the history'",
     "C18": "the same source change as C04 (C1 range in WrappedScreen::print): detected in runs 1-7, EQUIVALENT since fix 5a439e4 (see C04)",
+    "C01h": "MISSED by the first run (batched EL 1 / ED 1 loses the un-wrap when the cursor is on the first half of a wide character in the last two columns of a wrapped row): added idiom 86 (exactly that pre-state, then an erase) to gen_op and as a whole-operation choice of the csi family",
+    "C02h": "MISSED by the first run (diff between a scrolled-back view with rows of an older width and an unscrolled snapshot): the resize family's widening scenario now snapshots, scrolls back and diffs both ways (DIFF / ROWSD)",
+    "C07h": "MISSED by the first run (cached 'row is blank with pen p' survives a widening resize): the resize family got 'erase with a pen, widen, erase again with the same pen'",
+    "C11h": "MISSED by the first run (1049 clears only the rows the cursor has written to; SD / RI / IL move content below them): the alt family pushes content down on the alternate screen, leaves and re-enters through 1049",
     "C18b": "caught by the oracle's token table only: added idiom 83 (ESC with intermediates and every kind of final byte)",
 }
 res = {}
@@ -58,7 +62,7 @@ out.append("## 12. Seeded changes: which check catches which change\n")
 out.append("Each row is one change written by an independent worker who saw only the property text and a scratch\n"
            "worktree (never `/verif`); each compiles, passes the unedited 67-test suite + doctest, and breaks the property\n"
            "on a concrete input (the worker's demonstration test, re-run by us with and without the change). The\n"
-           "changes live in `seeded/<id>/` (`patch.diff`, `seeded_demo.rs`, `meta.json`; suffix b = second round, c/d/e/f = third to sixth round, g = seventh round (refactoring-style rewrites of whole functions, 10-60 lines, behaviour-identical except in one corner), whose workers were told what the earlier changes were and asked for a different function and mechanism; the fourth round was also asked for changes that alter behaviour on as few inputs as possible) and are never committed to `/repo`.\n"
+           "changes live in `seeded/<id>/` (`patch.diff`, `seeded_demo.rs`, `meta.json`; suffix b = second round, c/d/e/f = third to sixth round, g = seventh round (refactoring-style rewrites of whole functions, 10-60 lines, behaviour-identical except in one corner), h = eighth round (optimisation-style changes: caches, fast paths, batching, early returns), whose workers were told what the earlier changes were and asked for a different function and mechanism; the fourth round was also asked for changes that alter behaviour on as few inputs as possible) and are never committed to `/repo`.\n"
            "`tools/run_seeded.sh` applies one, runs `./check <property> --tier quick` (seed 1), undoes it. Columns:\n"
            "*dis* = cases where model and implementation differ, *orc* = cases where the implementation-level oracle\n"
            "fails; *mechanism* = what the first reported replay rests on (`correspondence+oracle(k)`: the states/bytes\n"
